@@ -348,6 +348,20 @@ func execLock(intents []string, st *Stats) (final, outs, oracle []string) {
 			after := s.dump()
 			emit(op, res+" "+after)
 			st.Inc(fmt.Sprintf("open:%s:ro=%v,proc0=%v,sameDir=%v", res, ro, proc == 0, d == v))
+			layout := "unrelated"
+			switch pd, pv := s.path(d%s.nd), s.path(v%s.nd); {
+			case d == v:
+				layout = "same-path"
+			case pd == pv:
+				layout = "two-names-of-one-directory"
+			case strings.HasPrefix(pv, pd+"/"):
+				layout = "valuedir-nested-in-dir"
+			case strings.HasPrefix(pv, pd):
+				layout = "valuedir-sibling-with-dir-as-name-prefix"
+			case strings.HasPrefix(pd, pv):
+				layout = "dir-inside-or-prefixed-by-valuedir"
+			}
+			st.Inc("layout:" + layout + ":" + res)
 			if res == "err" {
 				st.Inc("open-err:" + lockFirstWords(msg, 4))
 			}
